@@ -1,6 +1,6 @@
 (** C07 - One driver per signal: conflicts rejected, accepted designs conflict-free. *)
 From Coq Require Import ZArith NArith PArith List Bool Permutation.
-From Cohdl Require Import Vhdl.Value Vhdl.Syntax Vhdl.Sem Vhdl.Drivers Models.Usage Models.UsageProofs.
+From Cohdl Require Import Vhdl.Value Vhdl.NumStd Vhdl.Syntax Vhdl.Sem Vhdl.Drivers Models.Usage Models.UsageProofs.
 
 (** the usage check of the CURRENT tree ([check]: the always block is a context of its own, variables are
     rejected inside it, instance outputs may not drive input ports - fix commits 8d3d526, 615f499, f68d635) *)
@@ -65,27 +65,47 @@ Example C07_old_discipline_refuted_input : exists D, check_old D = Accept /\ no_
 Proof. exact check_old_refuted_input. Qed.
 Print Assumptions C07_old_discipline_refuted_input.
 
-(** emitted text: the order in which the statements' writes reach [Sem.commit] does not matter.
-    PARTIAL: proved for [single_driver_roots] (different statements assign different signals);
-    missing: disjoint scalars of ONE signal assigned by different statements (needs commutation of
-    [Bits.setslice] on disjoint ranges) and the order-independence of the variable-store threading of
-    [Sem.run_all] (frame property of [exec] under [vars_local]). *)
-Theorem C07_single_driver_sound_partial : forall d sg ev wss wss',
-  single_driver_roots d = true ->
+(** emitted text: under [single_driver d = true] one delta cycle of [Sem] - the variable store threaded through
+    the processes, the committed signal store, the set of changed signals - does not depend on the order in which
+    the concurrent statements are listed (stores compared extensionally, two runs that both end in a run-time error
+    are identified).  Covers different statements assigning disjoint static slices / elements of ONE signal. *)
+Theorem C07_single_driver_sound : forall d cs' sg vr ev init,
+  single_driver d = true -> Permutation d.(d_conc) cs' ->
+  delta_equiv (delta (prepare d.(d_conc)) sg vr ev init) (delta (prepare cs') sg vr ev init).
+Proof. exact single_driver_sound. Qed.
+Print Assumptions C07_single_driver_sound.
+
+(** the commit half on its own: whatever variable stores the statements ran with, their write lists can be handed
+    to [Sem.commit] in any statement order *)
+Theorem C07_single_driver_commit_sound : forall d sg ev wss wss',
+  drivers_disjoint d = true ->
   Forall2 (fun c ws => exists vr0 vr1, run_conc sg vr0 ev c = Ok (vr1, ws)) d.(d_conc) wss ->
   Permutation wss wss' ->
   res_equiv (commit sg (List.concat wss)) (commit sg (List.concat wss')).
-Proof. exact single_driver_sound_partial. Qed.
-Print Assumptions C07_single_driver_sound_partial.
+Proof. exact single_driver_commit_sound. Qed.
+Print Assumptions C07_single_driver_commit_sound.
+
+(** the frame property of the variable store: a statement only reads and writes its own variables *)
+Theorem C07_run_conc_frame : forall (P : positive -> Prop) sg ev a b c,
+  (forall x, In x (conc_vars c) -> P x) -> agree P a b ->
+  out_rel P (run_conc sg a ev c) (run_conc sg b ev c).
+Proof. exact run_conc_agree. Qed.
+Print Assumptions C07_run_conc_frame.
+
+(** the bit-level core: writes to disjoint ranges of a vector commute *)
+Theorem C07_setslice_comm : forall v lo1 n1 x lo2 n2 y, (lo1 + n1 <= lo2 \/ lo2 + n2 <= lo1)%N ->
+  Bits.setslice (Bits.setslice v lo1 n1 x) lo2 n2 y = Bits.setslice (Bits.setslice v lo2 n2 y) lo1 n1 x.
+Proof. exact setslice_comm. Qed.
+Print Assumptions C07_setslice_comm.
 
 (** the two-statement swap lemma and its lift, on write lists *)
-Theorem C07_commit_swap : forall a b rest, roots_disjoint a b ->
+Theorem C07_commit_swap : forall a b rest, blocks_disjoint a b ->
   forall s, res_equiv (commit s (a ++ b ++ rest)) (commit s (b ++ a ++ rest)).
 Proof. exact commit_swap_blocks. Qed.
 Print Assumptions C07_commit_swap.
 
 Theorem C07_commit_perm : forall wss wss' s,
-  (forall r, owners_of r wss <= 1) -> Permutation wss wss' ->
+  tagged_disjoint (tag_from 0 wss) -> Permutation wss wss' ->
   res_equiv (commit s (List.concat wss)) (commit s (List.concat wss')).
 Proof. exact commit_perm. Qed.
 Print Assumptions C07_commit_perm.
@@ -94,3 +114,14 @@ Example C07_single_driver_nonvacuous :
   exists d, single_driver d = true /\ single_driver_roots d = false.
 Proof. exact single_driver_nonvacuous. Qed.
 Print Assumptions C07_single_driver_nonvacuous.
+
+(** ... and the check does reject: a second driver reading a process variable, overlapping scalars, a run-time
+    index next to another statement, an assigned [in] port *)
+Example C07_single_driver_rejects :
+  single_driver example_design = true /\ single_driver_roots example_design = false
+  /\ single_driver (with_conc example_design (CAssign 3 nil (EVar 1) :: example_design.(d_conc))) = false
+  /\ drivers_disjoint (with_conc example_design (CAssign 2 (SelSlice 3 1 :: nil) (ELit (VV KSlv 3 1)) :: CAssign 2 (SelIdx (ELit (VI 1)) :: nil) (ESig 3) :: nil)) = false
+  /\ drivers_disjoint (with_conc example_design (CAssign 2 (SelIdx (EF1 FToInteger (ESig 2)) :: nil) (ESig 3) :: CAssign 2 (SelIdx (ELit (VI 1)) :: nil) (ESig 3) :: nil)) = false
+  /\ no_in_port_assigned (with_conc example_design (CAssign 1 nil (ESig 3) :: nil)) = false.
+Proof. exact single_driver_examples. Qed.
+Print Assumptions C07_single_driver_rejects.
